@@ -71,10 +71,28 @@ Theorem C15_single_commands_track_low : forall dep rvalid rfind filter readfile 
 Proof. exact single_commands_track_low. Qed.
 Print Assumptions C15_single_commands_track_low.
 
-(* lbuf_replace: marks only travel with surviving lines, new lines are born unmarked (any splice, any text) *)
+(* completeness made concrete: a global whose command list is ONE command that never takes a line out of the buffer
+   (a, i with any text, pu, r, s, p, k, y, =; any address) visits, when its scan ends normally, line beg and then EVERY
+   line of the original range, each once, in order, and leaves no mark *)
+Theorem C15_nondeleting_command_visits_all : forall dep rvalid rfind filter readfile curpath a loc cmd arg txt,
+  In a keep_cmds -> (hd0 cmd =? 99)%N = false ->
+  forall s b n pat body not fuel,
+  nomarks dep (lns (lb s)) -> (b < length (lns (lb s)))%nat ->
+  let M0 := map lid (firstn n (skipn (S b) (lns (lb s)))) in
+  let first := lid (nth b (lns (lb s)) dline) in
+  let '(s', vis', x) := glob_loop_x rfind (fun _ s => ex_simple rvalid rfind filter readfile curpath a loc cmd arg txt s)
+                          fuel b pat body not dep (set_lb s (globset_range n (S b) dep (lb s))) [] in
+  x = 0%N -> exists vs, map fst vis' = first :: vs /\ sub vs M0 /\ (forall m, In m M0 -> In m vs) /\ mids dep (lns (lb s')) = [].
+Proof. exact nondeleting_global_visits_all. Qed.
+Print Assumptions C15_nondeleting_command_visits_all.
+
+(* lbuf_replace: marks only travel with surviving lines, new lines are born unmarked (any splice, any text); a splice
+   that puts in at least as many lines as it takes out drops no mark *)
 Theorem C15_replace_marks : forall dep s pos n_del l,
-  sub (mids dep (lns (lbuf_replace s pos n_del l))) (mids dep (lns l)).
-Proof. exact replace_mids_sub. Qed.
+  sub (mids dep (lns (lbuf_replace s pos n_del l))) (mids dep (lns l)) /\
+  ((n_del <= length (match s with Some b => split_lines b | None => [] end))%nat ->
+   mids dep (lns (lbuf_replace s pos n_del l)) = mids dep (lns l)).
+Proof. exact (fun dep s pos n_del l => conj (replace_mids_sub dep s pos n_del l) (replace_mids_eq dep s pos n_del l)). Qed.
 Print Assumptions C15_replace_marks.
 
 (* the re-allocation branch of lbuf_replace (capacity 512, 1024, ...), at the level of the C array: the ln_glob
